@@ -1,0 +1,74 @@
+//go:build verif
+
+package auth
+
+// Contracts for contract-based deductive verification (checked by /verif/tool, see /verif/DESIGN.md).
+// Comments only; compiled only with the build tag `verif`.
+
+//@ property C19 units: auth.WithPerm, auth.HasPerm, auth.PermissionedProxy, auth.PermissionedProxy$1, (*auth.Handler).ServeHTTP
+
+//@ static permission-context-key-has-a-private-type: #permKey != #int [C19]
+//@ -- the caller's permission set: what is attached to the context (even if empty), otherwise the defaults
+//@ pred attached(ctx) := istype(ctxValue(ctx, box(permCtxKey)), #[]Permission)
+//@ pred callerSet(ctx, def) := ite(attached(ctx), unbox(ctxValue(ctx, box(permCtxKey)), #[]Permission), def)
+//@ pred member(s, p) := exists k :: 0 <= k && k < len(s) && s[k] == p
+
+//@ func auth.WithPerm
+//@   safety
+//@   modifies nothing
+//@   ensures attaches-exactly: attached(result) && unbox(ctxValue(result, box(permCtxKey)), #[]Permission) == perms [C19]
+//@   nopanic [C19]
+
+//@ func auth.HasPerm
+//@   safety
+//@   modifies nothing
+//@   loop 1 invariant none-so-far: forall k :: 0 <= k && k <= rangeindex ==> callerPerms[k] != perm [C19]
+//@   ensures found-has-witness: result ==> 0 <= rangeindex && rangeindex < len(callerSet(ctx, defaultPerms)) && callerSet(ctx, defaultPerms)[rangeindex] == perm [C19]
+//@   ensures not-found-means-absent: !result ==> (forall k :: 0 <= k && k < len(callerSet(ctx, defaultPerms)) ==> callerSet(ctx, defaultPerms)[k] != perm) [C19]
+//@   nopanic [C19]
+
+//@ func auth.PermissionedProxy
+//@   safety
+//@   may_panic
+//@   loop 1 invariant every-field-so-far-wrapped: f >= 0 && calls(MakeFunc) == f [C19]
+//@   loop 2 invariant validated-means-listed: ok ==> 0 <= rangeindex && rangeindex < len(validPerms) && validPerms[rangeindex] == requiredPerm [C19]
+//@   at call reflect.MakeFunc: assert wrapper-only-for-a-listed-tag: 0 <= rangeindex && rangeindex < len(validPerms) && validPerms[rangeindex] == requiredPerm && requiredPerm != "" [C19]
+//@   ensures every-method-gets-a-checking-wrapper: calls(MakeFunc) == rNumField(rtypeOf(rint)) [C19]
+
+//@ func auth.PermissionedProxy$1
+//@   safety
+//@   may_panic
+//@   requires len(args) >= 1 && istype(ifaceOf(args[0]), #context.Context)
+//@   ghost permOK : Bool = false
+//@   ghost callRes : U = nil
+//@   at call HasPerm: assert checks-required-perm: $2 == requiredPerm && $1 == defaultPerms [C19]
+//@   at ret HasPerm: set permOK = $result0
+//@   at call (reflect.Value).Call: assert impl-only-with-perm: permOK [C19]
+//@   at call (reflect.Value).Call: assert calls-the-wrapped-method: $0 == fn && $1 == args [C19]
+//@   ensures denied-means-not-invoked: !permOK ==> calls(Call) == 0 && calls(Errorf) == 1 [C19]
+//@   at call reflect.Zero: assert zero-value-of-the-value-result: $0 == OutT(field.Type, 0) && NumOut(field.Type) == 2 [C19]
+//@   ensures denied-result-has-the-methods-shape: !permOK ==> len(result) == ite(NumOut(field.Type) == 2, 2, 1) [C19]
+//@   ensures allowed-means-invoked-once: permOK ==> calls(Call) == 1 [C19]
+
+//@ func (*auth.Handler).ServeHTTP
+//@   safety
+//@   requires h.Next != nil && h.Verify != nil
+//@   ghost hdr : U = nil
+//@   ghost q : U = nil
+//@   ghost pfx : Bool = false
+//@   ghost verr : U = nil
+//@   at ret (net/http.Header).Get: set hdr = $result0
+//@   at ret FormValue: set q = $result0
+//@   at ret strings.HasPrefix: set pfx = $result0
+//@   at ret dyn:h.Verify: set verr = $result1
+//@   at ret dyn:h.Verify: let allow = $result0
+//@   at ret (*net/http.Request).Context: let rctx = $result0
+//@   at call strings.HasPrefix: assert checks-bearer-prefix: $1 == "Bearer " && $0 == ite(hdr != "", hdr, strcat("Bearer ", q)) [C19]
+//@   at call dyn:h.Verify: assert verifies-the-presented-token: $1 == trimPrefix(ite(hdr != "", hdr, strcat("Bearer ", q)), "Bearer ") && pfx [C19]
+//@   at call auth.WithPerm: assert attaches-verifier-result: $1 == allow && $0 == rctx && verr == nil [C19]
+//@   at call WriteHeader: assert rejects-with-401: $1 == 401 [C19]
+//@   at call dyn:h.Next: assert next-only-for-tokenless-or-verified: (hdr == "" && q == "") || (pfx && verr == nil && calls(Verify) == 1 && calls(WithPerm) == 1) [C19]
+//@   ensures tokenless-passes-through: hdr == "" && q == "" ==> calls(Next) == 1 && calls(Verify) == 0 && calls(WithPerm) == 0 && calls(WriteHeader) == 0 [C19]
+//@   ensures bad-prefix-is-401: !(hdr == "" && q == "") && !pfx ==> calls(WriteHeader) == 1 && calls(Next) == 0 && calls(Verify) == 0 [C19]
+//@   ensures rejected-is-401: !(hdr == "" && q == "") && pfx && verr != nil ==> calls(WriteHeader) == 1 && calls(Next) == 0 [C19]
+//@   ensures verified-passes-once: !(hdr == "" && q == "") && pfx && verr == nil ==> calls(Next) == 1 && calls(WriteHeader) == 0 [C19]
